@@ -589,6 +589,7 @@ type Opts struct {
 	SmallObjects  bool // keep object trees small
 	MaxDelta      uint32 // if > 0: largest distance of an explicit object number (each skipped number costs a 20-byte xref line)
 	AllowBulk     bool // allow "bulk" actions (hundreds to thousands of small objects)
+	IgnoreSparseFinding bool // do not cut sparse numbering down for xref-stream files (checks which never use the library's Reader)
 	AllowSparse   bool // allow explicit object numbers 70000 above the allocated ones (files of > 1 MB with xref tables)
 }
 
@@ -768,7 +769,7 @@ func Gen(o Opts) *rapid.Generator[Program] {
 				if o.MaxDelta > 0 && a.Delta > o.MaxDelta {
 					a.Delta = o.MaxDelta
 				}
-				if a.Delta > 8000 && v >= pdf.V1_5 && !p.HumanReadable && vt.FindingOpen(FindingSparseXRef) {
+				if a.Delta > 8000 && v >= pdf.V1_5 && !p.HumanReadable && !o.IgnoreSparseFinding && vt.FindingOpen(FindingSparseXRef) {
 					// the file would get a cross-reference stream with more
 					// entries than the reader's budget for its size allows
 					a.Delta = 3000
